@@ -365,6 +365,14 @@ def cli_dir_body(run, model, rng, nfiles, sub, failing_plugins):
         eid = 0x51000000 + rng.randrange(1 << 16)
         files.append(("u%08X.pel" % eid, dirgen.set_ids(c04.mini_pel(b"O", [(b"UD", 1, 1, 0x2000, body)]), eid=eid), dict(kind="pel", eid=eid)))
         files.sort(key=lambda f: rng.random())
+    if rng.random() < 0.3:
+        # a PEL that a diagnostic is printed for while it is decoded (a PCE identity declaring fewer than its 24 fixed bytes: the
+        # PEL is left out, the note belongs on stderr): the printed text must stay the JSON of the others
+        from props import c05
+        eid = 0x53000000 + rng.randrange(1 << 16)
+        files.append(("p%08X.pel" % eid, dirgen.set_ids(c05.pce_consistent_pel(rng.choice([4, 12, 20, 23]), tail_section=rng.random() < 0.5), eid=eid),
+                      dict(kind="pel", eid=eid)))
+        files.sort(key=lambda f: rng.random())
     if failing_plugins:
         from props import c18
         for j in range(rng.randrange(1, 3)):
